@@ -1092,9 +1092,36 @@ class World(object):
             raise Skip('in-place sort is op_sort_inplace')
         self.plan_register(st, reg)
         prop = [a] + ([b] if b is not None else [])
-        st.store = Store('dest' if st.dest is not None else 'new', vals=None, route='reduce',
-                         prop=prop, judge_cb=False, arith=f, judge_flags=False)
         axis = op.get('axis')
+        # exact value of the reduction on the operand's stored values (the store that creates the
+        # result is a write like any other: its flags are judged against this, under the same
+        # guards as arithmetic - single-stage route, operand reads back exactly, stored code is the
+        # exact quantization)
+        exact = None
+        two_stage = route == 'np' and (ao.config.array_op_out is not None or
+                                       ao.config.array_op_out_like is not None)
+        if f in ('sum', 'cumsum', 'prod', 'cumprod', 'max', 'min', 'sort', 'transpose', 'diagonal', 'trace') \
+                and not ao.scaled and not two_stage and self.template is None and self.cfg_template is None:
+            av = self.exact_of_slot(a, readback=True)
+            if av is not None:
+                try:
+                    A = np.empty(len(av[1]), dtype=object)
+                    A[:] = av[1]
+                    A = A.reshape(av[0])
+                    if f in ('sum', 'cumsum', 'prod', 'cumprod', 'max', 'min'):
+                        R = getattr(np, f)(A, axis=axis)
+                    elif f == 'sort':
+                        R = np.sort(A, axis=-1 if axis is None else axis)
+                    else:
+                        R = getattr(np, f)(A)
+                    R = np.asarray(R, dtype=object)
+                    exact = (tuple(R.shape), R.ravel().tolist())
+                except Exception:
+                    exact = None
+        st.store = Store('dest' if st.dest is not None else 'new', vals=exact, route='reduce',
+                         prop=prop, judge_cb=False, arith=f, judge_flags=exact is not None)
+        st.extra['arith_route'] = route
+        st.extra['np_two_stage'] = two_stage
         yield
         ao = self.obj(a)
         npf = {'sum': np.sum, 'cumsum': np.cumsum, 'prod': np.prod, 'cumprod': np.cumprod,
